@@ -808,26 +808,29 @@ Definition quote_ident (e : env) (s : string) : string :=
 Definition count_name (tables : list qtable) (n : string) : nat :=
   List.length (filter (fun c => String.eqb (qc_name c) n) (flat_map qt_cols tables)).
 
+(** the column list one star is replaced by *)
+Definition expand_cols (e : env) (tables : list qtable) (res ref : node) : list string :=
+  let scope := join_list (kid "Fields" ref) "." in
+  flat_map (fun t =>
+    if negb (String.eqb scope "") && negb (String.eqb scope (tn_name (qt_rel t))) then []
+    else
+      let table_name := quote_ident e (tn_name (qt_rel t)) in
+      let scope_name := quote_ident e scope in
+      map (fun column =>
+        let c0 := quote_ident e (some_or (qc_name column) (res_name res)) in
+        let c1 := if String.eqb scope "" then c0 else scope_name +++ "." +++ c0 in
+        (* counts is only filled when the star is unqualified; indexed with the column's own name *)
+        let cnt := if String.eqb scope "" then count_name tables (qc_name column) else 0%nat in
+        if Nat.ltb 1 cnt then table_name +++ "." +++ c1 else c1) (qt_cols t)) tables.
+
 Definition expand_target (e : env) (stmt_loc : Z) (tables : list qtable) (res : node) : result (list edit) :=
   let ref := kid "Val" res in
   if negb (is_kind "ResTarget" res) || negb (is_kind "ColumnRef" ref) || negb (has_star_ref ref) then Ok [] else
   let fields := kid_items "Fields" ref in
   if negb (forallb (fun f => is_kind "String" f || is_kind "A_Star" f) fields) then Err "unknown field in ColumnRef" else
   let parts := map (fun f => if is_kind "String" f then str_of "Str" f else "*") fields in
-  let scope := join_list (kid "Fields" ref) "." in
-  let cols :=
-    flat_map (fun t =>
-      if negb (String.eqb scope "") && negb (String.eqb scope (tn_name (qt_rel t))) then []
-      else
-        let table_name := quote_ident e (tn_name (qt_rel t)) in
-        let scope_name := quote_ident e scope in
-        map (fun column =>
-          let c0 := quote_ident e (some_or (qc_name column) (res_name res)) in
-          let c1 := if String.eqb scope "" then c0 else scope_name +++ "." +++ c0 in
-          (* counts is only filled when the star is unqualified; indexed with the column's own name *)
-          let cnt := if String.eqb scope "" then count_name tables (qc_name column) else 0%nat in
-          if Nat.ltb 1 cnt then table_name +++ "." +++ c1 else c1) (qt_cols t)) tables in
-  Ok [mkEdit (loc_of res - stmt_loc) (String.concat "." (map (quote_ident e) parts)) (String.concat ", " cols)].
+  Ok [mkEdit (loc_of res - stmt_loc) (String.concat "." (map (quote_ident e) parts))
+             (String.concat ", " (expand_cols e tables res ref))].
 
 Definition expand_stmt (fuel : nat) (e : env) (ctes : qcatalog) (stmt_loc : Z) (n : node) : result (list edit) :=
   do tables <- source_tables fuel e ctes n;
